@@ -3,3 +3,5 @@ import RP
 #print axioms RP.log_matching
 #print axioms RP.leader_completeness
 #print axioms RP.state_machine_safety
+#print axioms RP.snapshot_coverage
+#print axioms RP.state_machine_safety_snap
